@@ -596,4 +596,80 @@ theorem genRows_symmetric (g : Gen) (n r : ℕ) (us : List ℝ) (perm : List ℕ
     ring
   · simp [ha]
 
+/-! ### `Database.generate_draws` for any generator (structural: any number type) -/
+
+section GenerateDraws
+variable {α : Type} [NumOps α]
+
+theorem dimsAccepted_iff (n R : ℕ) (dims : List ℕ) :
+    dimsAccepted n R dims = true ↔ dims = [n, R] := by
+  simp [dimsAccepted]
+
+theorem dimsAccepted_false_iff (n R : ℕ) (dims : List ℕ) :
+    dimsAccepted n R dims = false ↔ dims ≠ [n, R] := by
+  simp [dimsAccepted]
+
+theorem firstRefused_none_iff (n R : ℕ) : ∀ (i : ℕ) (ds : List (List ℕ)),
+    firstRefused n R i ds = none ↔ ∀ d ∈ ds, d = [n, R]
+  | _, [] => by simp [firstRefused]
+  | i, d :: t => by
+    by_cases h : dimsAccepted n R d = true
+    · have e := (dimsAccepted_iff n R d).mp h
+      simp only [firstRefused, h, if_true, List.mem_cons, forall_eq_or_imp]
+      rw [firstRefused_none_iff n R (i + 1) t]
+      exact ⟨fun ht => ⟨e, ht⟩, fun ht => ht.2⟩
+    · have e : d ≠ [n, R] := fun e => h ((dimsAccepted_iff n R d).mpr e)
+      simp [firstRefused, h, e]
+
+/-- the refused variable is the first one whose shape is not `(n, R)` -/
+theorem firstRefused_some (n R : ℕ) : ∀ (i : ℕ) (ds : List (List ℕ)) (v : ℕ),
+    firstRefused n R i ds = some v →
+      i ≤ v ∧ (∃ d, ds[v - i]? = some d ∧ d ≠ [n, R]) ∧
+      ∀ k, k < v - i → ∀ d', ds[k]? = some d' → d' = [n, R]
+  | _, [], v => by simp [firstRefused]
+  | i, d :: t, v => by
+    intro h
+    by_cases hd : dimsAccepted n R d = true
+    · simp only [firstRefused, hd, if_true] at h
+      obtain ⟨h1, ⟨d0, h2, h3⟩, h4⟩ := firstRefused_some n R (i + 1) t v h
+      have hv : v - i = (v - (i + 1)) + 1 := by omega
+      refine ⟨by omega, ⟨d0, ?_, h3⟩, ?_⟩
+      · rw [hv, List.getElem?_cons_succ]; exact h2
+      · intro k hk d' hd'
+        cases k with
+        | zero =>
+          simp only [List.getElem?_cons_zero, Option.some.injEq] at hd'
+          subst hd'
+          exact (dimsAccepted_iff n R d).mp hd
+        | succ k =>
+          rw [List.getElem?_cons_succ] at hd'
+          exact h4 k (by omega) d' hd'
+    · have e : d ≠ [n, R] := fun e => hd ((dimsAccepted_iff n R d).mpr e)
+      simp only [firstRefused, hd, Bool.false_eq_true, if_false, Option.some.injEq] at h
+      subst h
+      refine ⟨le_refl _, ⟨d, by simp, e⟩, ?_⟩
+      intro k hk
+      omega
+
+theorem drawsTable_length (n R : ℕ) (arrays : List (List α)) : (drawsTable n R arrays).length = n := by
+  simp [drawsTable]
+
+theorem drawsTable_row (n R : ℕ) (arrays : List (List α)) (i : ℕ) (hi : i < n) :
+    (drawsTable n R arrays)[i]? =
+      some ((List.range R).map fun j => arrays.map (elemAt R i j)) := by
+  simp [drawsTable, List.getElem?_map, List.getElem?_range hi]
+
+theorem drawsTable_shape (n R : ℕ) (arrays : List (List α)) :
+    ∀ row ∈ drawsTable n R arrays, row.length = R ∧ ∀ cell ∈ row, cell.length = arrays.length := by
+  intro row hrow
+  simp only [drawsTable, List.mem_map, List.mem_range] at hrow
+  obtain ⟨i, _, rfl⟩ := hrow
+  refine ⟨by simp, ?_⟩
+  intro cell hcell
+  simp only [List.mem_map, List.mem_range] at hcell
+  obtain ⟨j, _, rfl⟩ := hcell
+  simp
+
+end GenerateDraws
+
 end Draws
